@@ -928,51 +928,22 @@ fn vt_default_in_place<T: Shape + ?Sized>(b: &mut [u8], f: ViewMutFn) -> Option<
     }
 }
 
-/// `FlatWrap::new_in_place` over different pointer kinds (0: &mut [u8], 1: Box<[u8]>-backed
-/// aligned copy is not possible without alignment control, so kinds are: 0 = `&mut [u8]`,
-/// 1 = `AlignedBytes` copy (content copied back for inspection)).
-struct WrapK<'b>(&'b mut [u8], u8);
-impl<'b, T: Shape + ?Sized> Kont<T> for WrapK<'b> {
-    type Out = Result<Option<flatty::AlignedBytes>, Error>;
+/// `FlatWrap::new_in_place` / `default_in_place` over `&mut [u8]`; the wrapper returned by the
+/// library is inspected as it is (it is NOT re-validated: that would hide an inconsistent value).
+struct WrapK<'b, 'f, 'g>(&'b mut [u8], ViewMutFn<'f>, PhantomData<&'g ()>);
+impl<'b, 'f, 'g, T: Shape + ?Sized> Kont<T> for WrapK<'b, 'f, 'g> {
+    type Out = Result<(), Error>;
     fn call<E: Emplacer<T>>(self, e: E) -> Self::Out {
-        match self.1 {
-            0 => {
-                let w = flatty::FlatWrap::<T, &mut [u8]>::new_in_place(self.0, e)?;
-                let _ = w.into_inner();
-                Ok(None)
-            }
-            _ => {
-                let ab = flatty::AlignedBytes::from_slice(self.0, T::ALIGN.max(1));
-                let w = flatty::FlatWrap::<T, flatty::AlignedBytes>::new_in_place(ab, e)?;
-                Ok(Some(w.into_inner()))
-            }
-        }
+        let mut w = flatty::FlatWrap::<T, &mut [u8]>::new_in_place(self.0, e)?;
+        (self.1)(&mut MutH(&mut *w));
+        Ok(())
     }
 }
-fn wrap_finish<T: Shape + ?Sized>(b: &mut [u8], r: Option<flatty::AlignedBytes>, f: ViewMutFn) -> Result<(), Error> {
-    match r {
-        None => {
-            let mut w = flatty::FlatWrap::<T, &mut [u8]>::from_wrapped_bytes(b)?;
-            f(&mut MutH(&mut *w));
-            Ok(())
-        }
-        Some(ab) => {
-            let mut w = flatty::FlatWrap::<T, flatty::AlignedBytes>::from_wrapped_bytes(ab)?;
-            f(&mut MutH(&mut *w));
-            Ok(())
-        }
-    }
+fn vt_wrap_new<T: Shape + ?Sized>(b: &mut [u8], v: &Value, style: u64, _kind: u8, f: ViewMutFn) -> Result<(), Error> {
+    T::with_emp(v, style, WrapK(b, f, PhantomData))
 }
-fn vt_wrap_new<T: Shape + ?Sized>(b: &mut [u8], v: &Value, style: u64, kind: u8, f: ViewMutFn) -> Result<(), Error> {
-    let r = T::with_emp(v, style, WrapK(b, kind))?;
-    wrap_finish::<T>(b, r, f)
-}
-fn vt_wrap_default<T: Shape + ?Sized>(b: &mut [u8], kind: u8, f: ViewMutFn) -> Option<Result<(), Error>> {
-    match T::default_emp(WrapK(b, kind)) {
-        None => None,
-        Some(Err(e)) => Some(Err(e)),
-        Some(Ok(r)) => Some(wrap_finish::<T>(b, r, f)),
-    }
+fn vt_wrap_default<T: Shape + ?Sized>(b: &mut [u8], _kind: u8, f: ViewMutFn) -> Option<Result<(), Error>> {
+    T::default_emp(WrapK(b, f, PhantomData))
 }
 fn vt_wrap_from<T: Shape + ?Sized>(b: &[u8], f: ViewFn) -> Result<(), Error> {
     let w = flatty::FlatWrap::<T, &[u8]>::from_wrapped_bytes(b)?;
